@@ -45,10 +45,12 @@ them changes anything the properties speak about; one real gap was found this wa
 
 {chr(10).join(st)}
 
-**Behaviour-preserving refactorings** (`bin/harmless_batch`, stored in `harmless/`). Ten sub-agents that saw only the
-property texts and a scratch worktree wrote three refactorings per property ({sum(hl.values())} in total: extracted or inlined
-helpers, renamed locals, restructured control flow, standard-library calls for hand-written loops, hot paths included), each
-confirmed to build and pass the existing tests. Result of the property's check on each: {hl['quiet']} quiet (PASS),
+**Behaviour-preserving refactorings** (`bin/harmless_batch`, stored in `harmless/`). In three rounds (`h1`, `h2`, `h3`) ten sub-agents that saw only the
+property texts and a scratch worktree wrote three refactorings per property and round ({sum(hl.values())} in total: extracted or inlined
+helpers, renamed locals, restructured control flow and validation paths, other internal data representations, standard-library
+calls for hand-written loops, hot paths included), each confirmed to build and pass the existing tests. The third round was
+written after the checks had been strengthened by red-team rounds 8 and 9, and `bin/harmless_regress` re-ran the first two
+rounds on the strengthened checks with unchanged verdicts. Result of the property's check on each: {hl['quiet']} quiet (PASS),
 {hl['broken-correspondence']} reported as `VIOLATION ... no-failing-input-found` (a generated obligation or the trace correspondence no
 longer matches the rewritten code and no failing input exists - the outcome the brief prescribes for that case),
 {hl.get('FALSE-ALARM', 0)} with a concrete failing input (that would be a false alarm). The non-quiet ones and the ones that led to
